@@ -52,6 +52,19 @@ func (p *c19) Init(tier string, seed int64) {
 			p.inj = append(p.inj, strings.Join(f[:j], "")+bad[(j+ci)%len(bad)]+strings.Join(f[j:], ""))
 		}
 	}
+	// operators of two words, the words apart by more (or other) than one blank: the tokeniser hands over a token
+	// that is not spelled like its input. Every kind of offender at every boundary, touching its neighbours
+	for _, s := range []string{"{{ a is  not b }}", "{{ a not\tin b }}", "{% if a starts\n with 'x' %}y{% endif %}", "{{ a ends   with 'x' and b is \t not c }}", "{{ a is\r\nnot b ? c not  in d : e }}"} {
+		f := gen.Split(s)
+		for j := 0; j <= len(f); j++ {
+			for _, b := range append(bad, ")", "]", "}", "\"") {
+				p.inj = append(p.inj, strings.Join(f[:j], "")+b+strings.Join(f[j:], ""))
+				if j > 0 && strings.TrimSpace(f[j-1]) == "" {
+					p.inj = append(p.inj, strings.Join(f[:j-1], "")+b+strings.Join(f[j:], ""))
+				}
+			}
+		}
+	}
 	p.nInj = (len(p.inj) + c19PerHistory - 1) / c19PerHistory
 	p.nRand = p.pick(600, 20000)
 	// bounded-exhaustive fragment sequences: where exactly the input ends decides whether the tokeniser is
